@@ -280,3 +280,113 @@ pub fn run_listops(seed: u64, tier: &str, out: &mut dyn FnMut(String)) {
         }
     }
 }
+
+fn truncate_stack(st: &mut PushState, which: usize, keep: usize) {
+    macro_rules! trunc {
+        ($s:expr) => {{
+            while $s.size() > keep {
+                $s.pop();
+            }
+        }};
+    }
+    match which {
+        0 => trunc!(st.bool_stack),
+        1 => trunc!(st.int_stack),
+        2 => trunc!(st.float_stack),
+        3 => trunc!(st.name_stack),
+        4 => trunc!(st.code_stack),
+        5 => trunc!(st.exec_stack),
+        6 => trunc!(st.index_stack),
+        7 => trunc!(st.bool_vector_stack),
+        8 => trunc!(st.int_vector_stack),
+        9 => trunc!(st.float_vector_stack),
+        10 => {
+            while st.input_stack.size() > keep {
+                st.input_stack.pop();
+            }
+        }
+        _ => {
+            while st.graph_stack.size() > keep {
+                st.graph_stack.pop();
+            }
+        }
+    }
+}
+
+/// C10: every instruction on rich states in which one or two stacks have been made too short
+pub fn run_starve(seed: u64, tier: &str, out: &mut dyn FnMut(String)) {
+    let names = instruction_names();
+    let nstates = if tier == "thorough" { 8 } else { 2 };
+    let mut iset = make_iset(false);
+    for name in names.iter() {
+        for k in 0..nstates {
+            let mut case = 0u64;
+            let mut variants: Vec<(usize, usize, Option<(usize, usize)>)> = vec![];
+            for which in 0..12 {
+                for keep in 0..3 {
+                    variants.push((which, keep, None));
+                }
+            }
+            let mut r0 = Rng::for_case(seed, &format!("starve-pairs:{}", name), k);
+            for _ in 0..12 {
+                variants.push((r0.below(12) as usize, r0.below(2) as usize, Some((r0.below(12) as usize, r0.below(2) as usize))));
+            }
+            for (which, keep, second) in variants {
+                case += 1;
+                // the same rich state for every variant of this (instruction, k)
+                let mut r = Rng::for_case(seed, &format!("starve:{}", name), k);
+                let mut st = gen_state(&mut r, &GenOpts { instrs: &names, rich: true, item_depth: 2 });
+                if st.index_stack.size() == 0 {
+                    st.index_stack.push(pushr::push::index::Index::new(3));
+                }
+                if st.graph_stack.size() == 0 {
+                    st.graph_stack.push(crate::stategen::gen_graph(&mut r));
+                    st.graph_stack.push(crate::stategen::gen_graph(&mut r));
+                }
+                truncate_stack(&mut st, which, keep);
+                if let Some((w2, k2)) = second {
+                    truncate_stack(&mut st, w2, k2);
+                }
+                if is_size_operand(name) {
+                    cap_ints(&mut st, 2000);
+                    if name == "CODE.RAND" {
+                        let n = st.int_stack.size();
+                        for i in 0..n {
+                            if let Some(v) = st.int_stack.get_mut(i) {
+                                if *v < -2000 {
+                                    *v = -((*v as i64).abs() % 2000) as i32;
+                                }
+                            }
+                        }
+                    }
+                }
+                out(format!("#c starve {} {}", name, case));
+                out(observe_exec(&mut iset, name, st));
+            }
+        }
+    }
+}
+
+/// C01: the real EXEC.CMD on a handful of harmless operand tuples (each spawn costs the hard-coded 1 s sleep)
+pub fn run_cmd(out: &mut dyn FnMut(String)) {
+    let mut iset = make_iset(true);
+    let cases: Vec<(Vec<i32>, Vec<&str>)> = vec![
+        (vec![i32::MAX], vec!["true", "x"]),
+        (vec![-1], vec!["true"]),
+        (vec![i32::MIN], vec!["true"]),
+        (vec![5], vec!["true", "a"]),
+        (vec![], vec!["true"]),
+        (vec![0], vec![]),
+        (vec![0], vec!["true"]),
+    ];
+    for (ints, names) in cases {
+        let mut st = PushState::new();
+        for n in names.iter().rev() {
+            st.name_stack.push(n.to_string());
+        }
+        for i in ints {
+            st.int_stack.push(i);
+        }
+        out(observe_exec(&mut iset, "EXEC.CMD", st));
+    }
+}
